@@ -9,7 +9,8 @@ use saphyr_parser::{Event, Input, Parser, ScalarStyle, ScanError, Tag};
 pub fn parse_many(s: &str) -> impl Iterator<Item = Result<Val, Error>> + '_ {
     let mut st = State::new(Parser::new_from_str(s));
     assert!(matches!(st.next(), Ok((Event::StreamStart, _))));
-    core::iter::from_fn(move || st.parse_stream_entry())
+    // the stream may be polled again after its end, e.g. by `input`
+    core::iter::from_fn(move || st.parse_stream_entry()).fuse()
 }
 
 /// Error span.
